@@ -15,4 +15,21 @@ META = {
          'histories (collisions forced with small high) and the proved-sound spec is evaluated on the implementation answers.',
     note=COMMON_NOTE + 'Modelled, not verified: numpy RandomState.randint as a stream (chunked draws = one draw, re-tested per case); '
          'termination of the real loop is probabilistic (theorem C15_live covers recorded streams with enough distinct values).'),
+ 'C03': dict(
+    text='Theorems (Properties/C03.v, closed under the global context) over the executable model of the five compilers, four loaders and '
+         'the executor (coq/Graph/Net.v): for every loaded net and every executor-cache state, a finished execution returns for each '
+         'requested output its (unique) dataflow meaning Den, the call log is duplicate-free, contains only nodes that carried an '
+         'operation (supplied/constant nodes never run) and only nodes the needed outputs depend on; the execution loop invariant for '
+         'any duplicate-free order; OutputCompiler gives every node exactly one of output/operation; runtime edges (batch_size, meta, '
+         'random_state) go to exactly the declaring nodes; an accepted compilation has no stochastic source node among the ancestors of '
+         'observed data; supplied values replace operations. The whole pipeline model (compile, load, execute, incl. the name-sorted DFS '
+         'order) is compared on every run with ElfiModel.generate on random graphs built through the real node classes with recording '
+         'operations (outputs and call order must be identical), and the user-level denotation of coq/Graph/Denote.v (written directly '
+         'over the source net, no compilation) is evaluated as the decidable spec on the implementation outputs, together with the '
+         'exactly-once/needed-only call multiset and the rejection rules.',
+    note=COMMON_NOTE + 'Partial: the composition "Den of compile(load(source)) = user-level den of the source" for the observed-twin '
+         'construction is validated by the correspondence check only (theorems cover the executor, the runtime edges, the rejection '
+         'check and the loaders piecewise). Modelled, not verified: networkx DiGraph as insertion-ordered adjacency lists, '
+         'nx.ancestors as reachability (soundness proved), recording operations stand for arbitrary callables. One known finding '
+         '(unobserved stochastic observable twin) is listed in KNOWN_FINDINGS.txt.'),
 }
